@@ -138,7 +138,17 @@ def run(ctx):
     seen = {st: {} for st in STYLES}
     # ---- complete enumeration over a small alphabet ----------------------------------------------------------------------------
     words = [''.join(p) for n in (2, 3) for p in itertools.product('ail', repeat=n)]
+    # (single words of 4-6 letters that are the concatenation of two enumerated words come first, in the same process as
+    # their two-word counterparts: 'aiai' and 'ai_ai' only differ where a style keeps the boundary in letter case)
+    long_words = sorted({a + b for a in words for b in words})
     names = itertools.chain(words, ('_'.join(p) for p in itertools.product(words, repeat=2)), ('_'.join(p) for p in itertools.product(words, repeat=3)))
+    for li, lw in enumerate(long_words):
+        if li % ctx.nshards != ctx.shard:
+            continue
+        a_b = [f"{lw[:k]}_{lw[k:]}" for k in (2, 3) if len(lw) - k in (2, 3)]
+        for nm in ([lw] + a_b) if li % 2 == 0 else (a_b + [lw]):
+            if not laws(nm, 'joined', li):
+                break
     for idx, name in enumerate(names):
         if idx % ctx.nshards != ctx.shard or not ctx.want('enum', idx):
             continue
